@@ -271,6 +271,19 @@ def register_tif(reg):
                  'self.tifNext == old(%s) + 12 + theLen' % POS, 'self.tifBack == old(%s)' % POS,
                  'self.tifBack + self.previousDiff == self.tifNext'],
         canaries=['len(%s) == len(old(%s))' % (D, D)], crosscheck=False))
+    # TIF auto-detection: a file is taken as TIF-marked exactly when it has 12 bytes and its first two little-endian words are
+    # zero (a first marker has type 0 and no predecessor); byte-reversed markers are recognised by the size of the third word
+    NEWT = [('self.hasTif', Bool), ('self.isReversed', Bool), ('self.tifType', Int), ('self.tifBack', Int), ('self.tifNext', Int),
+            ('self.previousTell', Int), ('self._prPad', Bool), ('self.raiseOnError', Bool)]
+    reg.add(Contract(TM, 'TifMarkerBase.__init__', inline=True))
+    reg.add(Contract(TM, 'TifMarkerRead._readBigEndian', inline=True))
+    reg.add(Contract(
+        TM, 'TifMarkerRead.__init__', {'self': KRec('TifMarkerRead'), 'theStream': STREAM, 'allowPrPadding': Bool}, requires=['theStream._stream.pos >= 0'],
+        modifies=NEWT + ['theStream._stream.pos'],
+        ensures=['self.hasTif == (len(%s) >= 12 and le32(%s, 0) == 0 and le32(%s, 4) == 0)' % (D, D, D),
+                 'self.isReversed == (len(%s) >= 12 and le32(%s, 0) == 0 and le32(%s, 4) == 0 and le32(%s, 8) > 65535 + 12)' % (D, D, D, D),
+                 '%s == 0' % POS, 'self.tifType == 0 and self.tifBack == 0 and self.tifNext == 0', 'self._prPad == allowPrPadding'],
+        canaries=['self.hasTif', 'not self.hasTif'], crosscheck=False))
     FIN = KRec('BinaryIO', data=Bytes, pos=Int)
     TIFN = KRec('TifMarker', tell=Int, type=Int, prev=Int, next=Int)
     reg.add(Contract(DT, 'TifMarker.is_tif_start', inline=True))
@@ -342,6 +355,24 @@ def register_reader_walk(reg):
         # the layout clauses chain from a record to the next: plain e-matching can run to its time limit on them, MBQI is quick
         c_.solver_order = ['z3-mbqi-short', 'z3-ematch', 'z3-default', 'z3-seed1']
         reg.add(c_, callable_=False)
+    # ---- seekLr: wherever the reader stood (inside a record with a successor, at EOF, ...), afterwards it stands at `offset` with
+    # no memory of the records it came from: the header it reads next starts a logical record (no stale successor bit), the
+    # logical position is 0 and the end-of-file flag is clear
+    TIFR2 = KRec('TifMarkerRead', hasTif=False, tifType=Int, tifBack=Int, tifNext=Int, previousTell=KOpt(Int))
+    RD2 = KRec('PhysRecRead', stream=STREAM, tif=TIFR2, keepGoing=False, pad_modulo=0, pad_non_null=False, isEOF=Bool, prLen=Int, prAttr=Int,
+               ldLen=Int, _ldIndex=Int, _ldTell=Int, _isLrStart=Bool, _mustReadHead=Bool, startOfLr=Int, startPrPos=Int,
+               recNum=KOpt(Int), fileNum=KOpt(Int), checksum=KOpt(Int))
+    reg.add(Contract(PR, 'PhysRecBase._reset', inline=True))
+    reg.add(Contract(PR, 'PhysRecRead._reset', inline=True))
+    reg.add(Contract(TM, 'TifMarkerRead.reset', inline=True))
+    reg.add(Contract(TM, 'TifMarkerBase.reset', inline=True))
+    reg.add(Contract(
+        PR, 'PhysRecRead.seekLr', {'self': RD2, 'offset': Int}, requires=['offset >= 0'], returns=Int,
+        modifies=WALKMOD + ['self.tif.tifType', 'self.tif.tifBack', 'self.tif.tifNext', 'self.tif.previousTell'],
+        ensures=['result == offset', '%s == offset' % POS, 'self._mustReadHead', 'not self.isEOF',
+                 'self.prAttr == 0 and self.prLen == 0 and self.ldLen == 0', 'self._ldIndex == 0 and self._ldTell == 0 and self._isLrStart',
+                 'is_none(self.recNum) and is_none(self.fileNum) and is_none(self.checksum)'],
+        canaries=['self.isEOF'], crosscheck=False))
     reg.add(Contract(PR, 'PhysRecRead._readOrSkipPreamble', inline=True))
     reg.add(Contract(PR, 'PhysRecRead._hasSuccessor', inline=True))
     reg.add(Contract(PR, 'PhysRecRead._isAttrBitSet', inline=True))
